@@ -12,10 +12,14 @@ def IN(e, vals):
 
 # ------------------------------------------------------------------------------------------ C07
 def world_hier():
-    A = {"base": "", "fields": [fld("a", 2, False), fld("b", 2, False), fld("k", 2, False, rand=False, init=1)],
+    A = {"base": "", "fields": [fld("a", 2, False), fld("b", 2, False), fld("k", 2, False, rand=False, init=1),
+                                {"name": "nl", "kind": "list", "w": 2, "signed": False, "rand": False, "init": [3], "cap": 6}],
          "blocks": [{"name": "c1", "dynamic": False, "body": [E(B("lt", F("a"), F("b")))]},
                     {"name": "c2", "dynamic": False, "body": [E(B("ne", F("a"), F("k")))]},
-                    {"name": "c3", "dynamic": False, "body": [IN(F("b"), [1, 2, 3])]}]}
+                    {"name": "c3", "dynamic": False, "body": [IN(F("b"), [1, 2, 3])]},
+                    # a block whose elaboration rewrites the constraint tree (foreach over a list that is edited)
+                    {"name": "c5", "dynamic": False, "body": [{"k": "foreach", "l": "nl", "v": "i", "it": True, "idx": False,
+                                                                "body": [E(B("ne", F("a"), {"k": "it", "v": "i", "p": ""}))]}]}]}
     Bc = {"base": "A", "fields": [fld("c", 1, False)],
           "blocks": [{"name": "c1", "dynamic": False, "body": [E(B("gt", F("a"), F("b")))]},       # overrides A.c1
                      {"name": "c4", "dynamic": False, "body": [E(B("eq", F("c"), {"k": "part", "e": F("a"), "hi": 0, "lo": 0}))]}]}
@@ -25,13 +29,14 @@ def world_hier():
     H = {"base": "", "fields": [fld("y", 2, False), {"name": "s", "kind": "obj", "cls": "A", "rand": True},
                                 {"name": "t", "kind": "obj", "cls": "B", "rand": True},
                                 {"name": "ol", "kind": "objlist", "cls": "A", "n": 2, "rand": True}],
-         "blocks": [{"name": "hc", "dynamic": False, "body": [E(B("le", F("s.a"), F("y")))]}]}
+         # the holder's own block has the SAME NAME as a block of the objects it holds
+         "blocks": [{"name": "c1", "dynamic": False, "body": [E(B("le", F("s.a"), F("y")))]}]}
     return {"classes": {"A": A, "B": Bc, "C": Cc, "H": H},
             "population": [{"id": "o1", "cls": "A"}, {"id": "o2", "cls": "A"}, {"id": "o3", "cls": "B"}, {"id": "o4", "cls": "C"},
                            {"id": "h1", "cls": "H"}, {"id": "h2", "cls": "H"}, {"id": "o5", "cls": "A"}]}
 
 
-BLOCKS = {"A": ["c1", "c2", "c3"], "B": ["c1", "c2", "c3", "c4"], "C": ["c1", "c2", "c3", "c4"]}
+BLOCKS = {"A": ["c1", "c2", "c3", "c5", "c5"], "B": ["c1", "c2", "c3", "c4", "c5"], "C": ["c1", "c2", "c3", "c4", "c5"], "H": ["c1"]}
 
 
 def inst_list(alive):
@@ -58,6 +63,7 @@ def holder_probe(h):
 
 
 def hist_cmode(rnd, sid, steps):
+    steps += 4
     world = world_hier()
     order = ["o1", "o3", "h1"] + rnd.sample(["o2", "o4", "h2", "o5"], 4)
     alive = order[:3]
@@ -66,14 +72,23 @@ def hist_cmode(rnd, sid, steps):
     for i in range(steps):
         r = rnd.random()
         insts = inst_list(alive)
-        if r < 0.45:
+        if r < 0.40:
             o, cls, _ = rnd.choice(insts)
             ops.append({"op": "cmode", "o": o, "b": rnd.choice(BLOCKS[cls]), "en": rnd.random() < 0.35})
-        elif r < 0.55 and later:
+        elif r < 0.47:
+            hs = [x for x in alive if x.startswith("h")]
+            if hs:
+                ops.append({"op": "cmode", "o": rnd.choice(hs), "b": "c1", "en": rnd.random() < 0.4})
+        elif r < 0.53:
+            fl = [x for x in alive if x.startswith("o")]
+            o = rnd.choice(fl)
+            ops.append({"op": "list", "kind": rnd.choice(["l_append", "l_append", "l_assign"]), "p": o + ".nl",
+                        "vs": [bits(rnd.randrange(4), 2)]})
+        elif r < 0.60 and later:
             n = later.pop()
             alive.append(n)
             ops.append({"op": "construct", "o": n})
-        elif r < 0.65:
+        elif r < 0.68:
             o = rnd.choice([x for x in alive if x.startswith("o")])
             ops.append({"op": "set", "p": o + ".k", "v": bits(rnd.randrange(4), 2)})
         else:
